@@ -50,6 +50,12 @@ def typeOf (Γ : TEnv) : PExpr → Option PT
     | some tl, some tr => binType tl tr op
     | _, _ => none
 
+/-- `checkReturn`: may a value of type `t` be returned in context `ctx`? -/
+def retOK (ctx : Ctx) (t : PT) : Bool :=
+  match ctx with
+  | .predicate => t == .boolean
+  | .transformation => t == .string || t == .number
+
 structure TInfo where
   env : TEnv
   inLoop : Bool
@@ -64,10 +70,7 @@ def checkStmt (ctx : Ctx) : Stmt → TInfo → Option TInfo
   | .ret e, i =>
     match typeOf i.env e with
     | none => none
-    | some t =>
-      match ctx with
-      | .predicate => if t = .boolean then some i else none
-      | .transformation => if t = .string ∨ t = .number then some i else none
+    | some t => if retOK ctx t then some i else none
   | .ite c t f, i =>
     match typeOf i.env c with
     | some .boolean => (checkStmt ctx t i).bind (checkStmt ctx f)
